@@ -250,6 +250,71 @@ func AtomicCAS[T integer](p *T, o, n T) bool {
 	return false
 }
 
+// typed atomics (atomic.Int32 etc.): same discipline, method form.
+
+type AtomicInt[T integer] struct{ v T }
+
+func (a *AtomicInt[T]) Load() T       { atomicPoint(); return a.v }
+func (a *AtomicInt[T]) Store(v T)     { atomicPoint(); a.v = v }
+func (a *AtomicInt[T]) Add(d T) T     { atomicPoint(); a.v += d; return a.v }
+func (a *AtomicInt[T]) Swap(v T) T    { atomicPoint(); o := a.v; a.v = v; return o }
+func (a *AtomicInt[T]) CompareAndSwap(o, n T) bool {
+	atomicPoint()
+	if a.v == o {
+		a.v = n
+		return true
+	}
+	return false
+}
+
+type AtomicInt32 = AtomicInt[int32]
+type AtomicInt64 = AtomicInt[int64]
+type AtomicUint32 = AtomicInt[uint32]
+type AtomicUint64 = AtomicInt[uint64]
+type AtomicUintptr = AtomicInt[uintptr]
+
+type AtomicBool struct{ v bool }
+
+func (a *AtomicBool) Load() bool    { atomicPoint(); return a.v }
+func (a *AtomicBool) Store(v bool)  { atomicPoint(); a.v = v }
+func (a *AtomicBool) Swap(v bool) bool { atomicPoint(); o := a.v; a.v = v; return o }
+func (a *AtomicBool) CompareAndSwap(o, n bool) bool {
+	atomicPoint()
+	if a.v == o {
+		a.v = n
+		return true
+	}
+	return false
+}
+
+type AtomicPointer[T any] struct{ v *T }
+
+func (a *AtomicPointer[T]) Load() *T     { atomicPoint(); return a.v }
+func (a *AtomicPointer[T]) Store(v *T)   { atomicPoint(); a.v = v }
+func (a *AtomicPointer[T]) Swap(v *T) *T { atomicPoint(); o := a.v; a.v = v; return o }
+func (a *AtomicPointer[T]) CompareAndSwap(o, n *T) bool {
+	atomicPoint()
+	if a.v == o {
+		a.v = n
+		return true
+	}
+	return false
+}
+
+type AtomicValue struct{ v any }
+
+func (a *AtomicValue) Load() any     { atomicPoint(); return a.v }
+func (a *AtomicValue) Store(v any)   { atomicPoint(); a.v = v }
+func (a *AtomicValue) Swap(v any) any { atomicPoint(); o := a.v; a.v = v; return o }
+func (a *AtomicValue) CompareAndSwap(o, n any) bool {
+	atomicPoint()
+	if a.v == o {
+		a.v = n
+		return true
+	}
+	return false
+}
+
 // ---- maps: canonical iteration order ----
 
 // MapKeys returns the keys of m in a canonical order: strings and numbers by value, pointers by
